@@ -43,18 +43,24 @@ LOADING_UNITS = {"mass": MASS_U, "volume_gas": VOL_U, "volume_liquid": VOL_U, "m
 MATERIAL_UNITS = {"mass": MASS_U, "volume": VOL_U, "molar": MOL_U}
 
 ADS_SUB = [("N2", 77.355), ("Ar", 87.3), ("CO2", 273.15), ("CH4", 111.7), ("O2", 90.2), ("Kr", 119.9),
-           ("C4H10", 272.6), ("H2O", 298.15)]
+           ("C4H10", 272.6), ("H2O", 298.15),
+           # gases whose stored molar mass differs from the backend's in the 5th..7th digit, and a few more
+           ("SF6", 230.0), ("C6H6", 298.15), ("C2H6", 184.6), ("C3H8", 231.0), ("C2H4", 169.4), ("NH3", 239.8),
+           ("Xe", 165.0), ("CO", 81.6), ("CH3OH", 298.15), ("C2H5OH", 298.15), ("C3H6", 225.5)]
 SUB_TEMPS = {"N2": [77.355, 87.3, 100.0], "Ar": [87.3, 95.0, 110.0], "CO2": [273.15, 283.15, 298.15], "CH4": [111.7, 130.0, 150.0],
-             "O2": [90.2, 100.0, 120.0], "Kr": [119.9, 150.0, 170.0], "C4H10": [272.6, 298.15, 320.0], "H2O": [298.15, 323.15, 350.0]}
+             "O2": [90.2, 100.0, 120.0], "Kr": [119.9, 150.0, 170.0], "C4H10": [272.6, 298.15, 320.0], "H2O": [298.15, 323.15, 350.0],
+             "SF6": [230.0, 250.0, 280.0], "C6H6": [298.15, 320.0, 350.0], "C2H6": [184.6, 220.0, 250.0], "C3H8": [231.0, 260.0, 300.0],
+             "C2H4": [169.4, 200.0, 240.0], "NH3": [239.8, 270.0, 300.0], "Xe": [165.0, 200.0, 250.0], "CO": [81.6, 95.0, 110.0],
+             "CH3OH": [298.15, 320.0, 350.0], "C2H5OH": [298.15, 320.0, 350.0], "C3H6": [225.5, 260.0, 300.0]}
 ADS_SUPER = [("N2", 298.15), ("CH4", 303.0), ("H2", 77.0), ("Ar", 200.0)]
 
 
 def tier_runs(tier):
-    return 12000 if tier == "quick" else 600000
+    return 12000 if tier == "quick" else 400000
 
 
 def tier_budget_s(tier):
-    return 240 if tier == "quick" else 2400
+    return 600 if tier == "quick" else 3000
 
 
 def decode_rep(k):
@@ -156,6 +162,11 @@ def gen_world(rng, index):
             iso["branch_in_frame"] = True
     world = {"adsorbates": [user_ads] if user_ads else [], "iso": iso, "T_K": T,
              "ads_class": cls, "mat_class": mcls}
+    if isinstance(material, dict) and rng.random() < 0.2:
+        # after the isotherm exists, another Material object of the same name with OTHER constants is put into the
+        # in-memory list (as a later upload or Material(..., store=True) would): conversions must keep using the isotherm's own
+        world["decoy_material"] = {"name": material["name"], "density": round(rng.uniform(0.2, 5.0), 4),
+                                   "molar_mass": round(rng.uniform(50.0, 5000.0), 3)}
     if cls == "sub" and rng.random() < 0.3:
         # a second isotherm of the same gas at another (sub-critical) temperature, converted in the same process:
         # the two share one Adsorbate object and hence one thermodynamic state
@@ -223,8 +234,8 @@ def get_consts(ctx, world):
 
 # --------------------------------------------------------------------------- operations
 
-BAD_UNITS = {"pressure": ["Bar", "psi", "mmol", "g"], "loading": ["kPa", "mmoll", "bar", "K"],
-             "material": ["kPa", "gram", "torr", "°C"]}
+BAD_UNITS = {"pressure": ["Bar", "psi", "mmol", "g", "KPA", " Pa"], "loading": ["kPa", "mmoll", "bar", "K", "MMOL", " mol", "Mg", "CM3"],
+             "material": ["kPa", "gram", "torr", "°C", "KG", "g ", "ML"]}
 BAD_BASES = {"pressure": ["abs", "Relative", "percent"], "loading": ["molarr", "volume", "relative"],
              "material": ["masss", "volume_gas", "fraction"]}
 
@@ -698,6 +709,8 @@ def execute(world, consts, rs=None, ops=None, n_ops=None):
     n_iso = 2 if world.get("sibling") else 1
     isos = [build.make_isotherm(_sub_world(world, k)["iso"]) for k in range(n_iso)]
     orcs = [Oracle(_sub_world(world, k), consts[k]) for k in range(n_iso)]
+    if world.get("decoy_material"):
+        build.make_material(world["decoy_material"], register=True)
     rng = random.Random(rs) if ops is None else None
     executed = []
     events = []
